@@ -24,7 +24,7 @@ func init() {
 			"(b) values of the six types from alphabets (accounts with ':' '-' '_', assets of the literal grammar, strings with spaces / escapes / non-ASCII, numbers and monetaries in {0,+-1,+-H}, portions) written by set_account_meta, fed back as store metadata to `vars { T $v = meta(...) }` of a second script and compared through set_tx_meta; tx metadata JSON unquotes to the same text; " +
 			"non-trivial = the text has a leading zero, a space or a fractional part, or the value is neither 0 nor 1; distinct = text + route",
 		Assumptions: []string{"zero denominators are not portions and are excluded (C12/C14/C18 cover them)", "expected values come from harness/ref.PortionOfText (decimal digits only)", "strings and assets passed as variables are UTF-8 text (what JSON, hence the CLI and a ledger, can carry)"},
-		QuickBudget: 70 * time.Second,
+		QuickBudget: 240 * time.Second,
 		ThoroBudget: 12 * time.Minute,
 		Run:         runC13,
 	})
